@@ -41,6 +41,14 @@ func script(w *W) string {
 				fmt.Fprintf(&b, "  $a = [\"p%d\", \"%d\"];\n  __b(%d, \"send\", \"p%d-%d\");\n  $r = $ch->send($a);\n  __e(%d, $r);\n", p, k, id, p, k, id)
 				continue
 			}
+			switch w.Payload {
+			case "int": // the value is the number itself; it is recorded as "p<i>-<k>" through __pv
+				fmt.Fprintf(&b, "  __b(%d, \"send\", \"p%d-%d\");\n  $r = $ch->send(%d);\n  __e(%d, $r);\n", id, p, k, 1000*(p+1)+k, id)
+				continue
+			case "float":
+				fmt.Fprintf(&b, "  __b(%d, \"send\", \"p%d-%d\");\n  $r = $ch->send(%d.5);\n  __e(%d, $r);\n", id, p, k, 1000*(p+1)+k, id)
+				continue
+			}
 			fmt.Fprintf(&b, "  __b(%d, \"send\", \"p%d-%d\");\n  $r = $ch->send(\"p%d-%d\");\n  __e(%d, $r);\n", id, p, k, p, k, id)
 		}
 		if w.CloseAfter && w.Closers > 0 {
@@ -131,6 +139,22 @@ func execScript(t *testing.T, w *W, s hx.Sched) *hx.Outcome {
 					parts = append(parts, hx.ValStr(v))
 				}
 				ret = strings.Join(parts, "-")
+			}
+			switch v := a[1].(type) {
+			case *data.IntValue:
+				// an integer payload 1000*(p+1)+k stands for "p<p>-<k>"
+				if w.Payload == "int" && v.Value >= 1000 {
+					ret = fmt.Sprintf("p%d-%d", v.Value/1000-1, v.Value%1000)
+				} else if w.Payload == "float" {
+					ret = fmt.Sprintf("int(%d)-instead-of-float", v.Value)
+				}
+			case *data.FloatValue:
+				if w.Payload == "float" {
+					n := int(v.Value)
+					if float64(n)+0.5 == v.Value && n >= 1000 {
+						ret = fmt.Sprintf("p%d-%d", n/1000-1, n%1000)
+					}
+				}
 			}
 			h.end(id, cur[id], ret)
 			return data.NewNullValue(), nil
